@@ -52,10 +52,12 @@ THEOREMS = [
     "c16_parser_cache_refuted", "c16_reparse_refuted", "check_history_zero_means_predicted",
     "plugins_resolve", "plugins_callable", "plugins_listing_complete",
     "resolution_pure", "c16_negative_cache_refuted",
+    "write_then_parse_pure", "write_extension_conservative",
 ]
 
 REQ = "From Verif Require Import Model.C16_Purity."
 REQ_RES = "From Verif Require Import Model.C16_Resolve."
+REQ_W = "From Verif Require Import Model.C16_Write."
 HERE = os.path.dirname(os.path.abspath(__file__))
 WORKER = os.path.join(HERE, "c16_worker.py")
 EXDIR = os.path.join(core.REPO, "tests", "parsers", "example_files")
@@ -569,6 +571,10 @@ def run(ctx):
             own = j["fname"] == j["parser"] and not j["args"]
             missing_dep = any(s in a["exc"] for s in ("ImportError", "ModuleNotFoundError", "URLError", "ConnectionError", "gaierror"))
             skipped.append({"job": label, "reason": a["exc"][:200], "own_example_file": own, "missing_dependency": missing_dep})
+            if not missing_dep:
+                ctx.__dict__.setdefault("_c16_error_jobs", []).append(
+                    {"reason": a["exc"][:200], "_digest": a["digest"], "_content": a["file_before"],
+                     "_job": {"parser": j["parser"], "fname": j["fname"], "file": j["file"], "args": j["args"], "argkey": j["argkey"]}})
             continue
         j = dict(j, digest=a["digest"], content=a["file_before"], opaque=a.get("opaque", {}), empty=(a["parts"]["data"].startswith("D[0]")))
         corpus.append(j)
@@ -1040,7 +1046,7 @@ def run(ctx):
                     ctx.violation(rep, what="header['obs_types'] differs from both the specification and the parser_cache model")
 
     # ---------------------------------------------------------------- E. plug-in resolution histories (generator, below)
-    gens = [phase_histories(), phase_headers(), resolution_histories(ctx, table, corpus)]
+    gens = [directed_outcomes(ctx, table, corpus), phase_histories(), phase_headers(), resolution_histories(ctx, table, corpus)]
     all_shards, spans = [], []
     for g in gens:
         sh_ = next(g)
@@ -1053,7 +1059,7 @@ def run(ctx):
         term = "[]"
         for sh_ in reversed(all_shards):
             term = f"List.app ({sh_}) (({SENT}) :: {term})"
-        one_v = ctx.coq_cases([term], REQ + "\n" + REQ_RES, timeout=1500)[0]
+        one_v = ctx.coq_cases([term], REQ + "\n" + REQ_RES + "\n" + REQ_W, timeout=1500)[0]
         all_vs = [None] * len(all_shards)
         if one_v is not None and one_v.count(SENT) == len(all_shards):
             all_vs, cur = [], []
@@ -1064,7 +1070,7 @@ def run(ctx):
                 else:
                     cur.append(x)
     else:
-        all_vs = ctx.coq_cases(all_shards, REQ + "\n" + REQ_RES, timeout=1500) if all_shards else []
+        all_vs = ctx.coq_cases(all_shards, REQ + "\n" + REQ_RES + "\n" + REQ_W, timeout=1500) if all_shards else []
     ctx.log(f"{len(all_shards)} Coq case files evaluated in {time.time() - t0:.0f}s")
     pos = 0
     for g, n_ in zip(gens, spans):
@@ -1296,6 +1302,211 @@ def resolution_histories(ctx, table, corpus):
                                  + f", but {alone[0] if isinstance(alone, list) else alone} alone in a fresh interpreter"))
 
 
+# ----------------------------------------------------------------------------------------------- directed: outcomes, rewrites
+def directed_outcomes(ctx, table, corpus):
+    """Directed corpus, the same for every VERIF_SEED.
+
+    (1) Error outcomes are outcomes: the RinexParser-family parsers with the rarely used `strict=True` (their example files
+        contain header lines they do not know -> ParserError) and every example job that raises, repeated and mixed with
+        the default call in one interpreter; each outcome (digest, or exception type + message) must be the one of a fresh
+        interpreter.  Model: check_history_detail (an exception is just another result value).
+    (2) Rewrites: the file at one path is replaced by another file (other RINEX major version, ...) between parse_file
+        calls - through every dispatching plug-in (kind 2 rows) and two ordinary parsers; reference = fresh interpreter on
+        the content that is at the path at that moment.  Model: Model/C16_Write.v, check_whistory_detail."""
+    quick = ctx.quick()
+    rows = {r["name"]: r for r in table["parser"]["rows"]}
+    ddir = os.path.join(ctx.work, "directed")
+    os.makedirs(ddir, exist_ok=True)
+    ex = lambda f: os.path.join(EXDIR, f)
+    have = set(os.listdir(EXDIR)) if os.path.isdir(EXDIR) else set()
+
+    def fresh_job(j, prepare=None):
+        return worker("fresh", {"parser": j["parser"], "file": j["file"], "args": j["args"], "prepare": prepare or []}, timeout=300)
+
+    # ---------------- (1) strict / error outcomes
+    groups = []                      # (parser, [jobs])
+    for name in sorted(rows):
+        if rows[name].get("base") != "RinexParser" and not (rows[name]["kind"] == 2 and name.startswith("wip_")):
+            continue
+        files_ = [f for f in EXTRA_FILES.get(name, []) if f in have and os.path.getsize(ex(f)) <= HEAVY_BYTES]
+        for f in files_[:1 if quick else 3]:
+            groups.append((name, [dict(parser=name, fname=f, file=ex(f), args=a, argkey=json.dumps(a, sort_keys=True))
+                                  for a in ({}, {"strict": True})]))
+    known = {(j["parser"], j["file"], j["argkey"]): j for j in corpus}
+    todo = [j for _, js in groups for j in js if (j["parser"], j["file"], j["argkey"]) not in known]
+    refs = dict(zip([id(j) for j in todo], pmap(fresh_job, todo)))
+    ejobs = []                       # jobs with a reference outcome
+    for name, js in groups:
+        ok_js = []
+        for j in js:
+            k = (j["parser"], j["file"], j["argkey"])
+            if k in known:
+                j.update(digest=known[k]["digest"], content=known[k]["content"], outcome="parsed")
+            else:
+                a = refs[id(j)]
+                if "worker_error" in a:
+                    continue
+                j.update(digest=a["digest"], content=a["file_before"], outcome=a.get("exc", "parsed"))
+            ok_js.append(j)
+            ejobs.append(j)
+            ctx.count("directed:outcome:" + j["outcome"].split(":")[0])
+        js[:] = ok_js
+    # the example jobs of the main corpus that raise (kept in coverage.skipped): repeat them too
+    for sk in ctx_skipped(ctx):
+        j = dict(sk["_job"], digest=sk["_digest"], content=sk["_content"], outcome=sk["reason"])
+        groups.append((j["parser"], [j]))
+        ejobs.append(j)
+    hist1, hist2 = [], []            # two interpreters: strict first / default first
+    iid = [0]
+
+    def pf(j):
+        iid[0] += 1
+        return ("parse_file", iid[0], j)
+    for name, js in groups:
+        d = next((j for j in js if not j["args"]), None)
+        st = next((j for j in js if j["args"]), None)
+        if st is not None and d is not None:
+            hist1 += [pf(st), pf(st), pf(d), pf(st), pf(d)]
+            hist2 += [pf(d), pf(st), pf(st), pf(d)]
+        else:
+            only = st or d
+            hist1 += [pf(only), pf(only)]
+            hist2 += [pf(only)]
+    ehists = [h for h in (hist1, hist2) if h]
+
+    def run_e(h):
+        return worker("history", {"ops": [dict(op="parse_file", i=i, parser=j["parser"], file=j["file"], args=j["args"]) for _, i, j in h]},
+                      timeout=900)
+
+    # ---------------- (2) rewrites
+    disp = sorted(n for n, r in rows.items() if r["kind"] == 2)
+    nav = [f for f in ("rinex2_nav.19n", "rinex3_nav", "rinex212_GN.rnx") if f in have]
+    obs_ = [f for f in ("rinex3_obs", "rinex2_obs") if f in have]
+    clk = [f for f in ("rinex3_clk", "rinex3_nav") if f in have]
+    bundles = []
+    for n in disp:
+        cont = nav if "nav" in n else clk if "clk" in n else obs_
+        if len(cont) >= 2:
+            bundles.append((n, cont))
+    for n, cont in (("sinex_site", ["sinex_site", "sinex_site_igs"]), ("rinex3_nav", ["rinex3_nav", "rinex2_nav.19n"])):
+        if n in rows and all(c in have for c in cont):
+            bundles.append((n, cont))
+
+    def run_bundle(arg):
+        bi, (name, cont) = arg
+        path = os.path.join(ddir, f"rewritten_{bi:02d}_{name}")
+        j = dict(parser=name, file=path, args={})
+        wr = lambda ci: dict(op="write", file=path, src=ex(cont[ci]), mtime_ns=1_600_000_000_000_000_000 + (bi * 10 + ci) * 1_000_000_000)
+        refs_ = [fresh_job(j, [wr(ci)]) for ci in range(len(cont))]          # one fresh interpreter per content, one after the other
+        order = list(range(len(cont))) + list(range(len(cont) - 1, -1, -1)) + [0]
+        ops, i = [], 0
+        for ci in order:
+            i += 1
+            ops += [wr(ci), dict(op="parse_file", i=i, parser=name, file=path, args={}), dict(op="mutate", i=i)]
+        res = worker("history", {"ops": ops}, timeout=900)
+        return path, refs_, order, ops, res
+
+    t0 = time.time()
+    eres = pmap(run_e, ehists)
+    bres = pmap(run_bundle, list(enumerate(bundles)))
+    ctx.log(f"directed: {len(todo)} outcome references, {len(ehists)} outcome histories ({sum(len(h) for h in ehists)} parses), "
+            f"{len(bundles)} rewrite bundles in {time.time() - t0:.0f}s")
+
+    # ---------------- terms
+    pid = {n: k for k, n in enumerate(sorted({j["parser"] for j in ejobs} | {n for n, _ in bundles}))}
+    fid, aid = {}, {}
+    fz = lambda f: fid.setdefault(f, len(fid))
+    az = lambda a: aid.setdefault(a, len(aid))
+    shards, meta = [], []
+    if ejobs and all(isinstance(r, list) for r in eres):
+        seen_t = {}
+        for j in ejobs:
+            seen_t[(pid[j["parser"]], zdig(j["content"]), az(j["argkey"]))] = zdig(j["digest"])
+        t_term = emit.lst(f"zt {p_} {c_} {a_} {d_}" for (p_, c_, a_), d_ in sorted(seen_t.items()))
+        f_term = emit.lst(emit.pair(emit.z(fz(j["file"])), emit.z(zdig(j["content"]))) for j in {j["file"]: j for j in ejobs}.values())
+        cases = []
+        for h, r in zip(ehists, eres):
+            ops_t = emit.lst(x for _, i, j in h for x in (f"zC {i} {pid[j['parser']]} {fz(j['file'])} {az(j['argkey'])}", f"zP {i}"))
+            obs_t = emit.lst(f"zo {o['i']} {zdig(o['digest'])} {zdig(o['file_before'])} {zdig(o['file_after'])}" for o in r)
+            cases.append(f"zh {ops_t} {obs_t}")
+        shards.append("let t := " + t_term + " in\nlet files := " + f_term + " in\n"
+                      "List.concat (List.map (fun c => check_history_detail (t, files, fst c, snd c))\n" + emit.lst(cases) + ")")
+        meta.append(("outcomes", None))
+    elif ejobs:
+        ctx.violation({"kind": "directed_worker_failed", "error": str(eres)[:400]}, what="a directed-outcome interpreter crashed", found=False)
+    for (name, cont), (path, refs_, order, ops, res) in zip(bundles, bres):
+        if not isinstance(res, list) or any("worker_error" in r for r in refs_):
+            ctx.violation({"kind": "directed_worker_failed", "bundle": name, "error": str(res)[:300]}, what="a rewrite interpreter crashed", found=False)
+            continue
+        t_term = emit.lst(f"zt {pid[name]} {zdig(r['file_before'])} {az('{}')} {zdig(r['digest'])}" for r in refs_)
+        wops, obs = [], []
+        i = 0
+        for ci in order:
+            i += 1
+            wops += [f"wW {fz(path)} {zdig(refs_[ci]['file_before'])}", f"wC {i} {pid[name]} {fz(path)} {az('{}')}", f"wP {i}", f"wM {i}"]
+        obs_t = emit.lst(f"zo {o['i']} {zdig(o['digest'])} {zdig(o['file_before'])} {zdig(o['file_after'])}" for o in res)
+        shards.append(f"check_whistory_detail ({t_term}, [], {emit.lst(wops)}, {obs_t})")
+        meta.append(("rewrite", (name, cont, path, refs_, order, ops, res)))
+        for k_, ci in enumerate(order):
+            ctx.case(("REWRITE", name, tuple(cont), k_), nontrivial=True,
+                     sample={"rewrite": name, "contents": cont, "order": order} if k_ == 0 and len(ctx.samples) < 6 else None)
+        ctx.count("directed:rewrite_bundle")
+    for h in ehists:
+        for _, i, j in h:
+            ctx.case(("OUTCOME", j["parser"], j["fname"] if "fname" in j else j["file"], j["argkey"], i), nontrivial=True)
+
+    vs = yield shards
+
+    for (kind, info), v in zip(meta, vs):
+        if kind == "outcomes":
+            flat_ops = [x for h in ehists for x in h]
+            flat_res = [o for r in eres for o in r]
+            if v is None or len(v) != len(flat_res):
+                ctx.violation({"broken": "directed outcome shard did not evaluate in Coq", "errors": [e[1][-800:] for e in ctx.last_coq_errors[:1]]},
+                              what="correspondence (model evaluation) failed", found=False)
+                continue
+            nrep = 0
+            pos = 0
+            for h, r in zip(ehists, eres):
+                for k_, ((_, i, j), o) in enumerate(zip(h, r)):
+                    code = v[pos + k_]
+                    if code != 0 and nrep < 3:
+                        nrep += 1
+                        ops_ = [dict(op="parse_file", i=i2, parser=j2["parser"], file=j2["file"], args=j2["args"]) for _, i2, j2 in h[:k_ + 1]]
+                        same = [x for x in ops_ if x["parser"] == j["parser"]]
+                        ctx.violation({"kind": "directed_history", "ops": same, "failing_call": ops_[-1],
+                                       "observed_outcome": o.get("exc") or o.get("parts"), "fresh_interpreter_outcome": j["outcome"],
+                                       "fresh_digest": j["digest"], "observed_digest": o["digest"], "verdict_code": code,
+                                       "how": f"{sys.executable} run_check.py C16 replay <this file>  (runs `ops` in one fresh interpreter, the failing call alone in another)"},
+                                      what=(f"outcome of parse_file({j['parser']!r}, {os.path.basename(j['file'])}, {j['argkey']}) depends on the history: "
+                                            f"{o.get('exc') or 'parsed'} after {len(same) - 1} earlier call(s) of this parser, {j['outcome']} in a fresh interpreter"))
+                pos += len(r)
+        else:
+            name, cont, path, refs_, order, ops, res = info
+            if v is None or len(v) != len(res):
+                ctx.violation({"broken": "rewrite shard did not evaluate in Coq", "errors": [e[1][-800:] for e in ctx.last_coq_errors[:1]]},
+                              what="correspondence (model evaluation) failed", found=False)
+                continue
+            for k_, code in enumerate(v):
+                if code == 0:
+                    continue
+                ci = order[k_]
+                upto = ops[:3 * (k_ + 1)]
+                ctx.violation({"kind": "directed_history", "ops": upto, "failing_call": upto[-2], "content_at_path": cont[ci],
+                               "contents_before": [cont[c] for c in order[:k_]],
+                               "observed_outcome": res[k_].get("exc") or res[k_].get("parts"),
+                               "fresh_interpreter_outcome": refs_[ci].get("exc") or refs_[ci].get("parts"), "verdict_code": code,
+                               "how": f"{sys.executable} run_check.py C16 replay <this file>"},
+                              what=(f"parse_file({name!r}, path) after the file at the path was replaced by {cont[ci]} "
+                                    f"(before: {', '.join(cont[c] for c in order[:k_]) or '-'}) gives {res[k_].get('exc') or 'a result'} "
+                                    f"that differs from the fresh interpreter on the same content ({refs_[ci].get('exc') or 'parsed'})"))
+                break
+
+
+def ctx_skipped(ctx):
+    return getattr(ctx, "_c16_error_jobs", [])
+
+
 def replay(ctx, path):
     rep = json.load(open(path))
     print(json.dumps({k: v for k, v in rep.items() if k not in ("ops",)}, indent=1)[:4000])
@@ -1308,6 +1519,17 @@ def replay(ctx, path):
             same = fr.get("digest") == o.get("digest") and o["file_before"] == o["file_after"]
             bad += not same
             print(("same    " if same else "DIFFERS ") + f"instance {o['i']} {o['parser']}({os.path.basename(o['file'])}) in-history={o.get('digest')} fresh={fr.get('digest')} {o.get('exc', '')}")
+        print("reproduced" if bad else "not reproduced")
+        return 1 if bad else 0
+    if rep.get("kind") == "directed_history":
+        hist = worker("history", {"ops": rep["ops"]}, timeout=900)
+        last = hist[-1] if isinstance(hist, list) and hist else hist
+        fc = rep["failing_call"]
+        prep = [o for o in rep["ops"] if o.get("op") == "write"][-1:]
+        alone = worker("fresh", {"parser": fc["parser"], "file": fc["file"], "args": fc.get("args"), "prepare": prep})
+        print("in the history      :", last.get("exc") or last.get("digest"))
+        print("fresh interpreter   :", alone.get("exc") or alone.get("digest"))
+        bad = last.get("digest") != alone.get("digest")
         print("reproduced" if bad else "not reproduced")
         return 1 if bad else 0
     if rep.get("kind") == "resolution_history":
